@@ -27,6 +27,9 @@ type gModel struct {
 	mode    *gEntry
 	// objects outside Netspoc's scope (C07)
 	outside map[gRef]bool
+	// an 'exit' at configuration level has left configuration mode: the
+	// device refuses every further configuration command
+	leftConfig bool
 }
 
 type gRef struct{ kind, name string }
@@ -308,9 +311,14 @@ func (m *gModel) exec(c string) {
 		m.delObject(gRef{k, n}, c)
 		return
 	}
+	if m.leftConfig {
+		m.reject("command sent after configuration mode was left by a stray exit", c)
+		return
+	}
 	if c == "exit" {
 		if m.mode == nil {
 			m.reject("exit outside of a configuration sub-mode", c)
+			m.leftConfig = true
 		}
 		m.mode = nil
 		return
